@@ -304,7 +304,12 @@ def oracle(case, obs, check=("sem", "md", "edges", "refs", "early", "emitwait", 
                         outs = orc[d].feed((who, v, tags))
                     except oracle_graph.OracleError as oe:
                         outs = []
-                        if not err or err != "raised:" + oe.args[0]:
+                        still_pending = case["mode"] == "async" and op["op"] == "emit" and (o.get("emits") or ["done"])[-1] == "pending"
+                        if still_pending:
+                            # an exception captured by a coroutine-style node surfaces through the awaitable only
+                            # when its other children are done; nothing to compare yet
+                            err = err or "raised:" + oe.args[0]
+                        elif not err or err != "raised:" + oe.args[0]:
                             bad = ("node %d (%s) function fails with %s on %r but emit reported %r" % (d, nodes[d]["kind"], oe.args[0], v, err), d)
                             break
                     exp_queue[d] = list(outs)
